@@ -37,6 +37,9 @@ def run(c, facts, tier):
     b = peg.Builder(facts)
     g = peg.Grammar(b)
     an = Anchors(facts, b)
+    from .. import glue
+
+    glue.obligations(c, facts, b, "C13")
     inner = an.role("parse_inner")
     infn = facts.fn(inner)
     tokfn = an.role("token")
